@@ -142,11 +142,58 @@ def oracle(ctx):
     return f
 
 
+def stream_row_counters(ctx):
+    """Row counters as the forest uses them: one factory hands out a counter per bucket; a bucket's released count is a function of its own
+    rows only (the per-entity contributions and the id-less rows of that bucket): compared with count_multiple_contributions on the
+    contribution table of exactly those rows, and with a counter of a fresh factory."""
+    import syndiffix.anonymizer as A
+    from syndiffix.common import AnonymizationParams, AnonymizationContext, FlatteningInterval
+    from syndiffix.counters import GenericPidCountersFactory
+    R = ctx.rng
+    S = ctx.stream("O-row-counter", "GenericPidCountersFactory(1-2 id columns): a sequence of 3-8 buckets (rows with ids, heavy hitters, id-less rows) each counted "
+                   "with a row counter taken from the same factory, against the direct count of the bucket's own contribution table and a fresh "
+                   "factory's counter; non-trivial = a later bucket after one with id-less rows")
+    for _ in range(ctx.scale(40, 400)):
+        dims = R.choice([1, 1, 2])
+        fac = GenericPidCountersFactory(dims, 21)
+        ap = AnonymizationParams(salt=R.getrandbits(64).to_bytes(8, "little"), layer_noise_sd=R.choice([0.0, 1.0]),
+                                 outlier_count=FlatteningInterval(*R.choice([(1, 2), (2, 5), (1, 1)])), top_count=FlatteningInterval(*R.choice([(2, 5), (2, 2), (1, 3)])))
+        seen_idless = False
+        for b in range(R.randint(3, 8)):
+            ne = R.choice([3, 8, 15, 30]); rows = []
+            for _ in range(R.choice([5, 20, 60])):
+                rows.append(tuple(U64(0) if R.random() < R.choice([0.0, 0.0, 0.2, 0.5]) else U64(R.randint(1, ne) * 7919 + d) for d in range(dims)))
+            seed = R.getrandbits(64)
+            actx = AnonymizationContext(U64(seed), ap)
+            c1 = fac.create_row_counter(); c2 = GenericPidCountersFactory(dims, 21).create_row_counter()
+            for r in rows:
+                c1.add(r); c2.add(r)
+            contribs = []
+            for d in range(dims):
+                cs = {}
+                for r in rows:
+                    if r[d] != 0: cs[int(r[d])] = cs.get(int(r[d]), 0) + 1
+                contribs.append((cs, sum(1 for r in rows if r[d] == 0)))
+            direct = AS.py_cntm(A, ap, seed, contribs); direct = "0" if direct == "none" else direct
+            try:
+                got1, got2 = str(int(c1.noisy_count(actx))), str(int(c2.noisy_count(actx)))
+            except Exception as e:
+                got1 = got2 = f"ERR raised {type(e).__name__}"
+            case = {"bucket_index": b, "id_columns": dims, "rows": [[int(x) for x in r] for r in rows] if len(rows) <= 20 else len(rows), "entities": [len(c) for c, _ in contribs],
+                    "idless": [u for _, u in contribs], "salt": ap.salt.hex(), "bucket_seed": seed, "noise_sd": ap.layer_noise_sd, "direct": direct, "factory_counter": got1, "fresh_counter": got2}
+            S.count((repr(rows), seed, repr(ap)), seen_idless, case, tag=f"dims{dims}/" + ("after-idless" if seen_idless else "first"))
+            if got1 != direct or got2 != direct:
+                ctx.oracle_fail(f"bucket {b} of a sequence counted through one factory: released count {got1} (fresh factory: {got2}) but its own rows give {direct}: "
+                                f"rows of other buckets or id-less rows beyond its own add to the count", case, "row-counter-sequence")
+            seen_idless = seen_idless or any(u for _, u in contribs)
+
+
 def run(ctx, built):
     AS.stream_cnt(ctx, built, oracle(ctx))
+    stream_row_counters(ctx)
 
 
 def search(ctx, seeds):
     sub = Ctx(ctx.pid, "quick", ctx.seed + 32452843)
-    AS.stream_cnt(sub, False, oracle(sub))
+    AS.stream_cnt(sub, False, oracle(sub)); stream_row_counters(sub)
     ctx.oracle_failures += sub.oracle_failures
